@@ -207,6 +207,23 @@ pub fn contexts(tier: Tier) -> Vec<Ctx> {
             stmts: vec![for_(pvar("x"), arr(vec![h(), n()]), vec![assign("m", vec![], bin(BinOp::BitXor, m(), var("x")))])],
             r: None,
         });
+        // the hole inside the body of a loop: as the initializer of a let, inside the value of an
+        // assignment, as an operand of a condition (a for-join loop merges its body's effects per joined
+        // pair, a for loop runs it unconditionally)
+        {
+            let ja = || arr(vec![tup(vec![u8l(1), u8l(10)]), tup(vec![u8l(3), u8l(20)])]);
+            let jb = || arr(vec![tup(vec![u8l(1), u8l(1)]), tup(vec![u8l(2), u8l(2)]), tup(vec![u8l(3), u8l(3)])]);
+            let jp = || Pat::Tup(vec![pvar("x"), pvar("y")]);
+            let fold = |e: Expr| assign("m", vec![], bin(BinOp::BitXor, bin(BinOp::BitXor, m(), e), tupf(var("y"), 1)));
+            out.push(Ctx { name: format!("for-join{{let q={hn};m=m^q^y.1}}"), stmts: vec![st(StmtKind::ForJoin(jp(), ja(), jb(), vec![let_("q", h()), fold(var("q"))]))], r: None });
+            out.push(Ctx { name: format!("for-join{{m=m^{hn}^y.1}}"), stmts: vec![st(StmtKind::ForJoin(jp(), ja(), jb(), vec![fold(h())]))], r: None });
+            out.push(Ctx {
+                name: format!("for-join{{let q=if {hn}>x.1{{n}}else{{m}};m=m^q^y.1}}"),
+                stmts: vec![st(StmtKind::ForJoin(jp(), ja(), jb(), vec![let_("q", if_(bin(BinOp::Gt, h(), tupf(var("x"), 1)), vec![expr_stmt(n())], Some(vec![expr_stmt(m())]))), fold(var("q"))]))],
+                r: None,
+            });
+            out.push(Ctx { name: format!("for x in [1,2]{{let q={hn};m=m^q^x}}"), stmts: vec![for_(pvar("x"), arr(vec![u8l(1), u8l(2)]), vec![let_("q", h()), assign("m", vec![], bin(BinOp::BitXor, bin(BinOp::BitXor, m(), var("q")), var("x")))])], r: None });
+        }
         // nested: the hole inside a condition block of an inner if, inside an operand
         out.push(r_is(
             format!("n ^ if {hn}>3 {{n}} else {{m}}"),
